@@ -112,9 +112,9 @@ def c_message_build_27():
 
 def c_segment_build():
     s = Segment('PID', version='2.2', validation_level=TOL)
-    s.pid_5 = 'A^B'
+    s.add(parse_field('A^B', name='PID_5', version='2.2', encoding_chars=dict(STD), validation_level=TOL))
     f = Field('PID_3', version='2.2', validation_level=TOL)
-    f.value = 'X'
+    f.add(parse_component('X', name='CK_1', version='2.2', encoding_chars=dict(STD), validation_level=TOL))
     s.add(f)
     return (s.to_er7(dict(STD)), s.to_er7(dict(EC)), s.version, s.validation_level, f.version)
 
